@@ -60,7 +60,7 @@ LastOfLen(f, l) == LET idxs == {i \in 1..Len(f) : Len3(f[i]) = l}
 SeqOfSet(S) == SetToSeq(S)
 
 (* frees that arrive while the lock is held are appended to pend in the given order *)
-Malloc(size, gc1, gc2) ==
+MallocWith(size, gc1, gc2, label) ==
     /\ size \in Sizes
     /\ Cardinality(live) - Len(pend) - Len(gc1) < MaxLive
     /\ LET p1 == pend \o gc1
@@ -83,7 +83,11 @@ Malloc(size, gc1, gc2) ==
           /\ live' = live1 \cup {got}
           /\ reqs' = {r \in reqs : r[1] \in live1} \cup {<<got, size>>}
           /\ pend' = gc2
-          /\ act' = [name |-> "Malloc", size |-> size, gc1 |-> gc1, gc2 |-> gc2, got |-> got]
+          /\ act' = label @@ [got |-> got]
+
+Malloc(size, gc1, gc2) ==
+    MallocWith(size, gc1, gc2, [name |-> "Malloc", size |-> size, gc1 |-> gc1, gc2 |-> gc2])
+MallocCore(size, label) == MallocWith(size, <<>>, <<>>, label)
 
 Free(b, gc1, gc2) ==     \* free() that gets the lock
     /\ b \in live /\ b \notin ToSet(pend) /\ b \notin ToSet(gc1) /\ b \notin ToSet(gc2)
